@@ -77,6 +77,8 @@ fn contexts(w: i32, h: i32, quick: bool) -> Vec<(Vec<Op>, Vec<Op>)> {
         (vec![Op::PushClipRect(1, 1, w, h - 1)], vec![Op::PopClip]),
         (vec![Op::PushClip(tri.clone())], vec![Op::PopClip]),
         (vec![Op::PushClipRect(0, 0, 1, h), Op::PushClipRect(2, 0, w, h)], vec![Op::PopClip, Op::PopClip]),
+        // a clip rectangle whose area does not fit an i32 (it contains the surface: nothing is clipped)
+        (vec![Op::PushClipRect(-50000, -50000, 50000, 50000)], vec![Op::PopClip]),
     ];
     if !quick {
         v.push((vec![Op::PushClipRect(-2, -2, w + 3, h + 2)], vec![Op::PopClip]));
